@@ -156,6 +156,7 @@ def run_scenario(cfg, plan=None, extra_after=None, max_steps=400000):
                         client.send(r2, tok)
             res.iocb.add_callback(follow)
         injected = sum(a[1] for a in (plan.table.values() if plan else []) if isinstance(a, tuple) and a[0] == DELAY)
+        injected += getattr(plan, "latency_budget", 0.0) if plan else 0.0
         bound = cfg.bound(injected) * (1 + len(cfg.extra) + len(cfg.followups))
         res.bound = bound
         CLOCK.drive(until=t0 + bound, max_steps=max_steps)
